@@ -74,6 +74,9 @@ def discharge(vc, use_cvc5=True, timeout_ms=None):
             except Exception:
                 ground_model = None
         ground_reason = 'ground-stage: %s (%s)' % (r, stats)
+        if os.environ.get('PYVC_NO_QUANT'):
+            v.status, v.backend, v.reason, v.model = 'unknown', 'ground', ground_reason, ground_model
+            return v
         pc_full = pc_plain + [ground.to_z3(b) for b in pc_q]
         goal_full = ground.to_z3(vc.goal)
         qt = min(timeout_ms or Z3_TIMEOUT_MS, 10000)
